@@ -646,6 +646,18 @@ def uf_family(run, r, n):
                         continue
                     offer(rule, [Eq(Q(x_, phi_of(x_)), psi), {x_.name: sk}], [prem], 'guessed')
 
+    # ---- onepoint: (Q x. x = a ... ) against the body at a point; the context names the point
+    for _ in range(max(3, n // 6)):
+        a_, b_ = xs[2], xs[3]
+        body_of = r.choice([lambda t: P1(t), lambda t: R2(t, xs[4]), lambda t: And(P1(t), ps[0])])
+        for pt_ in (a_, b_, f1(a_)):
+            for eq_ in (Eq(x_, a_), Eq(a_, x_)):
+                sub = lambda t: t   # noqa
+                inst_eq = Eq(pt_, a_) if eq_.lhs == x_ else Eq(a_, pt_)
+                offer('verit_onepoint', [Eq(Forall(x_, Implies(eq_, body_of(x_))), Implies(inst_eq, body_of(pt_))), {x_.name: pt_}], [], 'guessed')
+                offer('verit_onepoint', [Eq(Exists(x_, And(eq_, body_of(x_))), And(inst_eq, body_of(pt_))), {x_.name: pt_}], [], 'guessed')
+                offer('verit_onepoint', [Eq(Forall(x_, Or(Not(eq_), body_of(x_))), Or(Not(inst_eq), body_of(pt_))), {x_.name: pt_}], [], 'guessed')
+
     # ---- shape bank: every boolean simplification rule is offered every left side of the bank with every right side built
     #      from the same sub-formulas (the rule decides, Z3 judges what was accepted)
     bool_rules = ['verit_not_simplify', 'verit_and_simplify', 'verit_or_simplify', 'verit_implies_simplify', 'verit_equiv_simplify',
